@@ -17,7 +17,7 @@ import concurrent.futures as cf, glob, json, os, shutil, subprocess, sys, tempfi
 HERE = os.path.dirname(os.path.abspath(__file__))
 REPO = os.environ.get("VERIF_REPO", "/repo")
 BIN = os.path.join(HERE, "bin", "vxcheck")
-ENV = dict(os.environ, GOFLAGS="-mod=mod", GOPROXY="off", GOSUMDB="off", GOTOOLCHAIN="local", GOWORK="off")
+ENV = dict(os.environ, GOFLAGS="-mod=mod -trimpath", GOPROXY="off", GOSUMDB="off", GOTOOLCHAIN="local", GOWORK="off")
 
 
 def check(prop, repo):
@@ -42,7 +42,7 @@ def with_patch(prop, patch):
 
 
 
-def trim_go_cache(limit_gb=20):
+def trim_go_cache(limit_gb=80):
     """Scratch copies used to fill the Go build cache (one set of export data per scratch path) until the disk was
     full; the loader now builds with -trimpath, which makes the entries path-independent. Safety valve all the same."""
     try:
